@@ -280,6 +280,10 @@ mut("C06-sr-state0", "C06", [(MOT3, """        if state is None:
             str_output = f'SR,{timeout_ms}'""", """        if not state:
             str_output = f'SR,{timeout_ms}'""")], "servo_timeout drops state=0 (power off now)")
 
+mut("C07-module-reply-memo", "C07", [
+    (SER, "            if cmd.split(\",\")[0].strip().lower() not in [\"a\", \"i\", \"mr\", \"pi\", \"qm\", \"qg\", \"v\"]:\n                # Most queries return", "            if cmd.strip().lower() in (\"v\", \"qt\"):\n                response = _IDENTITY.setdefault(cmd.strip().lower(), response) or response\n            if cmd.split(\",\")[0].strip().lower() not in [\"a\", \"i\", \"mr\", \"pi\", \"qm\", \"qg\", \"v\"]:\n                # Most queries return"),
+    (SER, "def query(port_name, cmd, verbose=True):", "_IDENTITY = {}\n\n\ndef query(port_name, cmd, verbose=True):")],
+    "identity replies (version, nickname) remembered per request text at module level: right for one board")
 # ------------------------------------------------------------------------------- C08
 mut("C08-xmin-xmax", "C08", [(PU, """            x_new = x_max # Find intersection of our segment with x_max
             slope = (y_2 - y_1) / (x_2 - x_1)
